@@ -43,7 +43,6 @@ def gen_buffer(rng, N):
     K = rng.rng(1, 2)
     nprod = rng.rng(1, max(1, (N - 1) // 2))
     ncons = rng.rng(1, max(1, N - 1 - nprod))
-    items = rng.rng(1, 3) * nprod * ncons // max(nprod, ncons) or 1
     # split `total` items among producers and among consumers
     total = max(nprod, ncons) * rng.rng(1, 2)
     def split(n, k):
